@@ -62,8 +62,27 @@ def my_blob(sid, user, service, alg, bits):
     return s(sid) + b"\x32" + s(user) + s(service) + s(b"publickey") + b"\x01" + s(alg) + s(bits)
 
 
+CERT_SUFFIX = b"-cert-v01@openssh.com"
+
+
+def toy_sign(alg, bits, blob):
+    """A well-formed toy signature: string(algorithm without cert suffix) + string(mac)."""
+    return s_(bytes(alg).replace(CERT_SUFFIX, b"")) + s_(toy_mac(bits, blob))
+
+
+def toy_sig_valid(sig, alg, bits, blob):
+    """Independent statement of 'this signature is valid for blob under the declared algorithm'."""
+    from paramiko.message import Message
+    m = Message(sig)
+    return m.get_binary() == bytes(alg).replace(CERT_SUFFIX, b"") and m.get_binary() == toy_mac(bits, blob)
+
+
 class GssStubError(Exception):
     pass
+
+
+class ToyVerifyError(Exception):
+    """What a key class raises on a structurally broken signature."""
 
 
 def make_world(repo_paramiko=None):
@@ -91,7 +110,11 @@ def make_world(repo_paramiko=None):
             return "toy-a"
 
         def verify_ssh_sig(self, data, msg):
-            return msg.asbytes() == toy_mac(self.bits, data)
+            msg.get_binary()                        # algorithm name
+            mac = msg.get_binary()
+            if mac == b"RAISE":
+                raise ToyVerifyError("structurally broken signature")
+            return mac == toy_mac(self.bits, data)
 
     class Srv(paramiko.ServerInterface):
         def __init__(self, world):
@@ -313,7 +336,8 @@ def gen_step(rng, sid, profile, main_user):
         keyok = (alg.decode().replace("-cert-v01@openssh.com", "") in TOY_PREFERRED
                  and alg.decode() in TOY_ALGOS and keyblob[:1] != b"\xff")
         variant = rng.choices(["valid", "other-sid", "other-user", "other-service", "other-alg", "other-key",
-                               "garbage", "empty"], weights=[45, 8, 8, 8, 8, 8, 10, 5])[0]
+                               "garbage", "empty", "sig-alg-other", "sig-alg-unstripped", "verify-raises",
+                               "truncated"], weights=[40, 7, 7, 7, 7, 7, 6, 3, 6, 4, 9, 4])[0]
         f = {"sid": sid, "user": user, "service": service, "alg": alg, "bits": bits}
         if variant == "other-sid":
             f["sid"] = sid + b"x"
@@ -325,13 +349,22 @@ def gen_step(rng, sid, profile, main_user):
             f["alg"] = b"toy-b" if alg != b"toy-b" else b"toy-a"
         elif variant == "other-key":
             f["bits"] = bits + b"z"
-        sig = toy_mac(f["bits"], my_blob(f["sid"], f["user"], f["service"], f["alg"], bits))
-        if variant == "other-key":
-            sig = toy_mac(f["bits"], my_blob(sid, user, service, alg, f["bits"]))
+        # signed data as the signer saw it; the signature names the request's algorithm
+        mac = toy_mac(f["bits"], my_blob(f["sid"], f["user"], f["service"], f["alg"], f["bits"]))
+        sigalg = alg.replace(CERT_SUFFIX, b"")
+        if variant == "sig-alg-other":
+            sigalg = rng.choice([b"toy-b" if sigalg != b"toy-b" else b"toy-a", b"", sigalg + b"x"])
+        elif variant == "sig-alg-unstripped":
+            sigalg = sigalg + CERT_SUFFIX
+        elif variant == "verify-raises":
+            mac = b"RAISE"
+        sig = s_(sigalg) + s_(mac)
         if variant == "garbage":
-            sig = bytes(rng.randrange(256) for _ in range(4))
-        if variant == "empty":
+            sig = bytes(rng.randrange(256) for _ in range(rng.randrange(1, 12)))
+        elif variant == "empty":
             sig = b""
+        elif variant == "truncated":
+            sig = sig[:rng.randrange(len(sig))]
         body = bytes([1 if attached else 0]) + s_(alg) + s_(keyblob) + (s_(sig) if attached else b"")
         if not attached:
             sig = b""
@@ -366,6 +399,8 @@ def exn_code(e):
     import paramiko
     if isinstance(e, GssStubError):
         return 101
+    if isinstance(e, ToyVerifyError):
+        return 102
     if isinstance(e, AttributeError):
         return 15
     if isinstance(e, struct.error):
@@ -487,15 +522,21 @@ def c14_oracle(ctx, sid, steps, recs):
                      expected="callback result AUTH_SUCCESSFUL", observed=repr(cbs[-1:]))
             continue
         if kind == "publickey":
-            good = toy_mac(info["bits"], my_blob(sid, info["user"], info["service"], info["alg"], info["bits"]))
-            if info["sig"] != good or not info["keyok"]:
+            good = toy_sign(info["alg"], info["bits"],
+                            my_blob(sid, info["user"], info["service"], info["alg"], info["bits"]))
+            if not info["keyok"] or not toy_sig_valid(
+                    info["sig"], info["alg"], info["bits"],
+                    my_blob(sid, info["user"], info["service"], info["alg"], info["bits"])):
                 ctx.fail("bad-signature-accepted",
                          "publickey authentication succeeded with a signature that is not over this session's blob",
                          case=case_repr(sid, steps[:i + 1]), expected=good, observed=info["sig"])
-        if rec["ptype"] == 66 or kind == "gssapi-keyex":
-            if kind == "gssapi-keyex" and cbs[-1][1] == "gssapi_keyex" and not (rec["env"]["micok"] and rec["env"]["kexctx"]):
-                ctx.fail("gssapi-mic-not-checked", "gssapi success without a valid MIC",
-                         case=case_repr(sid, steps[:i + 1]))
+        if cbs[-1][1] in ("gssapi_keyex", "gssapi_with_mic"):
+            env = rec["env"]
+            proof = env["micok"] and (env["kexctx"] if cbs[-1][1] == "gssapi_keyex" else True)
+            if not proof:
+                ctx.fail("gssapi-success-without-valid-mic",
+                         "USERAUTH_SUCCESS for %s although the MIC did not verify (or no GSS context exists)" % cbs[-1][1],
+                         case=case_repr(sid, steps[:i + 1]), expected="USERAUTH_FAILURE", observed=repr(tr))
 
 
 def run_sequences(ctx, nseq, oracle, label, profiles=None):
@@ -552,7 +593,8 @@ def real_key_cases(ctx):
     other = paramiko.RSAKey.generate(2048)      # (tests/_support/rsa-lonely.key is the same key as rsa.key)
     env = {"res": 0, "gss": False, "mechok": True, "tok": 2, "micok": True, "kexctx": False, "banner": False}
     variants = ["valid", "other-sid", "other-user", "other-service", "other-alg", "other-key", "probe",
-                "callback-failed", "callback-partial", "flipped-bit"]
+                "callback-failed", "callback-partial", "flipped-bit", "malformed-half", "malformed-empty",
+                "sig-alg-renamed", "verify-raises"]
     n = 0
     with gss_patch(holder):
         for key, algs in keys:
@@ -581,6 +623,26 @@ def real_key_cases(ctx):
                         sig = f["key"].sign_ssh_data(blob, f["alg"].decode()).asbytes()
                         if variant == "flipped-bit":
                             sig = sig[:-1] + bytes([sig[-1] ^ 1])
+                        key_info = paramiko.Transport._key_info
+                        if variant in ("malformed-half", "malformed-empty", "sig-alg-renamed"):
+                            from paramiko.message import Message
+                            sm = Message(sig)
+                            name, raw = sm.get_binary(), sm.get_binary()
+                            if variant == "malformed-half":
+                                raw = raw[:len(raw) // 2]
+                            elif variant == "malformed-empty":
+                                raw = b""
+                            else:
+                                name = name + b"x"
+                            sig = s_(name) + s_(raw)
+                        if variant == "verify-raises":
+                            # a key class that raises on a structurally broken signature instead of returning False
+                            class Raising(type(key)):
+                                def verify_ssh_sig(self, data, msg):
+                                    raise ValueError("malformed signature")
+                            key_info = dict(key_info)
+                            key_info[alg] = Raising
+                            sig = s_(alg.encode()) + s_(b"\x00" * 7)
                         e = dict(env)
                         if variant == "callback-failed":
                             e["res"] = 2
@@ -589,8 +651,7 @@ def real_key_cases(ctx):
                         attached = variant != "probe"
                         payload = s_(user) + s_(service) + s_(b"publickey") + bytes([1 if attached else 0]) \
                             + s_(alg.encode()) + s_(key.asbytes()) + (s_(sig) if attached else b"")
-                        w = World(sid, key_info=paramiko.Transport._key_info,
-                                  preferred=paramiko.Transport._preferred_pubkeys)
+                        w = World(sid, key_info=key_info, preferred=paramiko.Transport._preferred_pubkeys)
                         holder["world"] = w
                         tr = w.deliver(50, payload, e)
                         n += 1
@@ -602,7 +663,8 @@ def real_key_cases(ctx):
                             ctx.fail("session-blob-wrong", "_get_session_blob is not the RFC 4252 signed data",
                                      case={"alg": alg}, expected=my_blob(sid, user, service, alg.encode(), key.asbytes()),
                                      observed=hb)
-                        case = {"alg": alg, "variant": variant, "key": type(key).__name__, "sid": sid, "user": user}
+                        case = {"alg": alg, "variant": variant, "key": type(key).__name__, "sid": sid, "user": user,
+                                "payload": payload}
                         if variant == "valid" and not authed:
                             ctx.fail("valid-signature-rejected", "a valid signature with an approving callback "
                                      "did not authenticate (harness or implementation broken)", case=case)
@@ -646,42 +708,90 @@ def blob_cases(ctx, n):
         ctx.disagree("_get_session_blob differs from model", case={"fields": raw[i][:5]}, impl=raw[i][5])
 
 
-def gss_witness(ctx):
-    """Deterministic witnesses for the gssapi paths: rejecting callback, then approving callback."""
+def sig_witness(ctx):
+    """Deterministic publickey witnesses (toy key, approving callback): only the valid signature authenticates;
+    wrong algorithm names, foreign blobs, malformed blobs and a verify call that RAISES must not."""
     World, _, _ = make_world()
     holder = {}
-    base = {"gss": True, "mechok": True, "tok": 2, "micok": True, "kexctx": True, "banner": False}
+    sid, user, service, keyblob = b"SID-w", b"alice", b"ssh-connection", b"key1"
+    bits = toy_bits(keyblob)
+    env = {"res": 0, "gss": False, "mechok": True, "tok": 1, "micok": True, "kexctx": False, "banner": False,
+           "keyok": True, "bits": bits}
+    with gss_patch(holder):
+        for alg in (b"toy-a", b"toy-a" + CERT_SUFFIX):
+            base = alg.replace(CERT_SUFFIX, b"")
+            mac = toy_mac(bits, my_blob(sid, user, service, alg, bits))
+            sigs = {"valid": s_(base) + s_(mac),
+                    "verify-raises": s_(base) + s_(b"RAISE"),
+                    "sig-alg-other": s_(b"toy-b") + s_(mac),
+                    "sig-alg-unstripped": s_(base + CERT_SUFFIX) + s_(mac),
+                    "other-sid": s_(base) + s_(toy_mac(bits, my_blob(b"SID-x", user, service, alg, bits))),
+                    "empty": b"", "raw-mac-only": mac, "truncated": (s_(base) + s_(mac))[:-1]}
+            for variant, sig in sorted(sigs.items()):
+                payload = s_(user) + s_(service) + s_(b"publickey") + b"\x01" + s_(alg) + s_(keyblob) + s_(sig)
+                steps = [(50, payload, env, None, {})]
+                w = World(sid)
+                holder["world"] = w
+                tr = w.deliver(50, payload, env)
+                ctx.count(("sig-witness", alg, variant), kind="sig-witness")
+                got = w.handler.authenticated or b"\x34" in sends(tr)
+                if got != (variant == "valid"):
+                    ctx.fail("bad-signature-accepted" if got else "valid-signature-rejected",
+                             "publickey (%s, signature variant %s, approving callback%s): authenticated=%r" % (
+                                 alg.decode(), variant,
+                                 ", key.verify_ssh_sig raises" if variant == "verify-raises" else "", got),
+                             case=case_repr(sid, steps), expected="authenticated == %r" % (variant == "valid"),
+                             observed=repr(tr))
+
+
+def gss_witness(ctx):
+    """Deterministic grid over the gssapi paths: callback result x MIC valid x context present x
+    accept_sec_context outcome.  Authenticated iff the callback approves AND the proof is valid."""
+    World, _, _ = make_world()
+    holder = {}
     with gss_patch(holder):
         for res in (2, 1, 0):
-            env = dict(base, res=res)
-            # gssapi-keyex
-            w = World(b"SID")
-            holder["world"] = w
-            steps = [(50, s_(b"bob") + s_(b"ssh-connection") + s_(b"gssapi-keyex") + s_(b"mic"), env, None, {})]
-            tr = w.deliver(*steps[0][:3])
-            ctx.count(("gss-witness", "keyex", res), kind="gss-witness")
-            got = w.handler.authenticated or b"\x34" in sends(tr)
-            if got != (res == 0):
-                ctx.fail("gssapi-keyex-ignores-callback" if got else "valid-gss-rejected",
-                         "USERAUTH_SUCCESS sent although the server's check_auth_gssapi_keyex callback did not "
-                         "return AUTH_SUCCESSFUL" if got else "approved gssapi-keyex did not authenticate",
-                         case=case_repr(b"SID", steps), expected="authenticated == %r" % (res == 0), observed=repr(tr))
-            # gssapi-with-mic: request, token, mic
-            w = World(b"SID")
-            holder["world"] = w
-            steps = [(50, s_(b"bob") + s_(b"ssh-connection") + s_(b"gssapi-with-mic") + struct.pack(">I", 1)
-                      + s_(b"\x06\x09mech"), env, None, {}),
-                     (61, s_(b"clienttoken"), env, None, {}), (66, s_(b"mic"), env, None, {})]
-            tr = []
-            for st in steps:
-                tr = w.deliver(*st[:3])
-            ctx.count(("gss-witness", "mic", res), kind="gss-witness")
-            got = w.handler.authenticated or b"\x34" in sends(tr)
-            if got != (res == 0):
-                ctx.fail("gssapi-with-mic-ignores-callback" if got else "valid-gss-rejected",
-                         "USERAUTH_SUCCESS sent although the server's check_auth_gssapi_with_mic callback did not "
-                         "return AUTH_SUCCESSFUL" if got else "approved gssapi-with-mic did not authenticate",
-                         case=case_repr(b"SID", steps), expected="authenticated == %r" % (res == 0), observed=repr(tr))
+            for micok in (True, False):
+                for kexctx in (True, False):
+                    env = {"gss": True, "mechok": True, "tok": 2, "micok": micok, "kexctx": kexctx,
+                           "banner": False, "res": res}
+                    w = World(b"SID")
+                    holder["world"] = w
+                    steps = [(50, s_(b"bob") + s_(b"ssh-connection") + s_(b"gssapi-keyex") + s_(b"mic"), env, None, {})]
+                    tr = w.deliver(*steps[0][:3])
+                    ctx.count(("gss-witness", "keyex", res, micok, kexctx), kind="gss-witness")
+                    got = w.handler.authenticated or b"\x34" in sends(tr)
+                    want = res == 0 and micok and kexctx
+                    if got != want:
+                        key = ("valid-gss-rejected" if want else
+                               "gssapi-keyex-ignores-callback" if res != 0 else "gssapi-success-without-valid-mic")
+                        ctx.fail(key, "gssapi-keyex: callback result %d, MIC %s, context %s -> authenticated=%r (must be %r)" % (
+                            res, "valid" if micok else "INVALID", "present" if kexctx else "ABSENT", got, want),
+                            case=case_repr(b"SID", steps), expected="authenticated == %r" % want, observed=repr(tr))
+                for tok in (2, 1, 0):
+                    env = {"gss": True, "mechok": True, "tok": tok, "micok": micok, "kexctx": True,
+                           "banner": False, "res": res}
+                    w = World(b"SID")
+                    holder["world"] = w
+                    steps = [(50, s_(b"bob") + s_(b"ssh-connection") + s_(b"gssapi-with-mic") + struct.pack(">I", 1)
+                              + s_(b"\x06\x09mech"), env, None, {}),
+                             (61, s_(b"clienttoken"), env, None, {}), (66, s_(b"mic"), env, None, {})]
+                    got = False
+                    alltr = []
+                    for st in steps:
+                        tr = w.deliver(*st[:3])
+                        alltr += tr
+                        got = got or w.handler.authenticated or b"\x34" in sends(tr)
+                    ctx.count(("gss-witness", "mic", res, micok, tok), kind="gss-witness")
+                    want = res == 0 and micok and tok != 0
+                    if got != want:
+                        key = ("valid-gss-rejected" if want else
+                               "gssapi-with-mic-ignores-callback" if res != 0 else "gssapi-success-without-valid-mic")
+                        ctx.fail(key, "gssapi-with-mic: callback result %d, MIC %s, accept_sec_context %s -> "
+                                 "authenticated=%r (must be %r)" % (res, "valid" if micok else "INVALID",
+                                                                    {0: "RAISES", 1: "done", 2: "token"}[tok], got, want),
+                                 case=case_repr(b"SID", steps), expected="authenticated == %r" % want,
+                                 observed=repr(alltr))
 
 
 def run(ctx):
@@ -700,6 +810,7 @@ def run(ctx):
     ctx.prove()
     scale = 6 if ctx.thorough else 1
     gss_witness(ctx)
+    sig_witness(ctx)
     unbound = run_sequences(ctx, 160 * scale, c14_oracle, "seq")
     blob_cases(ctx, 80 * scale)
     n = real_key_cases(ctx)
@@ -724,13 +835,16 @@ def replay(ctx, rep):
     with gss_patch(holder):
         w = World(sid)
         holder["world"] = w
-        tr = []
+        succ = False
+        last_cb = None
         for st in steps:
             tr = w.deliver(*st[:3])
             ctx.count(("replay", st[0], st[1]), kind="replay")
-        cbs = [ev for ev in tr if ev[0] == "cb"]
-        succ = w.handler.authenticated or b"\x34" in sends(tr)
-        if succ and not (cbs and cbs[-1][3] == AUTH_SUCCESSFUL):
-            ctx.fail(rep["key"], rep["what"], case=case, expected=rep.get("expected"), observed=repr(tr))
-        elif succ and rep["key"] in ("bad-signature-accepted", "probe-authenticates"):
-            ctx.fail(rep["key"], rep["what"], case=case, expected=rep.get("expected"), observed=repr(tr))
+            cbs = [ev for ev in tr if ev[0] == "cb"]
+            last_cb = cbs[-1] if cbs else last_cb
+            succ = succ or w.handler.authenticated or b"\x34" in sends(tr)
+        # every recorded failing input of this property is one that must NOT authenticate
+        if succ and rep["key"] != "valid-gss-rejected" and rep["key"] != "valid-signature-rejected":
+            ctx.fail(rep["key"], rep["what"], case=case, expected=rep.get("expected"), observed=repr(last_cb))
+        if not succ and rep["key"] in ("valid-gss-rejected", "valid-signature-rejected"):
+            ctx.fail(rep["key"], rep["what"], case=case, expected=rep.get("expected"), observed="not authenticated")
